@@ -23,9 +23,12 @@ PROPS = {
                          "qwrap3"],
                 caps=dict(quick=[1, 2, 3], thorough=[1, 2, 3, 4, 5, 6, 7]), invariants=["QuiescentMeansDone"]),
     "C14": dict(benches=["query", "query6", "qpartial", "sources"], caps=dict(quick=[1, 2], thorough=[1, 2, 4]), invariants=[]),
-    "C16": dict(benches=["hier", "hier3", "hpanic_P", "hpanic_P_a", "hpanic_P_b", "hpanic_P_a_x", "hpanic_Q"],
+    "C16": dict(benches=["hier", "hier3", "hpanic_P", "hpanic_P_a", "hpanic_P_b", "hpanic_P_a_x", "hpanic_Q",
+                         "hanon_P_unknown", "hanon_P_unknown_x", "hanon_unknown"],
                 caps=dict(quick=[2], thorough=[1, 2, 3]), invariants=["InitOnceFirst"]),
 }
+# part of C17 ("events sent by one model through one output reach a sink in sending order"): sink senders of outputs
+C17_SINKS = dict(benches=["sinkmix", "fanout"], caps=dict(quick=[1, 2], thorough=[1, 2, 3]), invariants=[])
 # part of C11 (failure attribution): the model named in a Panic raised at each position of a model hierarchy
 C11_ATTRIBUTION = dict(benches=["hpanic_P", "hpanic_P_a", "hpanic_P_b", "hpanic_P_a_x", "hpanic_Q"],
                        caps=dict(quick=[2], thorough=[1, 2]), invariants=[])
